@@ -39,14 +39,14 @@ func init() {
 					jobs = append(jobs, J("H_C03_fma", o, "d", c[0], "p", c[1]))
 					jobs = append(jobs, J("H_C03_fma", o, "d", c[0], "p", c[1], "alias", 2))
 				}
-				jobs = append(jobs, J("H_C03_fma", o, "d", 0, "p", 19, "wu", 2), J("H_C03_fma", o, "d", 0, "p", 5, "alias", 5, "zf", 1, "capx", 2))
+				jobs = append(jobs, J("H_C03_fma", o, "d", 0, "p", 5, "alias", 5, "zf", 1, "capx", 2))
 			}
 			return jobs
 		},
 		Witnesses: []string{"C03.separation"},
 		Bounds: map[string]string{
 			"quick":    "x, y, u one word each (product two words); alignment of u against the product d = 0; p in {19, 5}; receiver fresh, == x, == u; the same with a concrete multiplier mantissa (5000000000000000001 at p=5, 1234567890123456789 at p=19; exponents within +-1000, i.e. away from the known finding's region, and unrestricted); all 26 form-class triples with a zero or infinity, fresh receiver and receiver == u; all word values, signs, modes, exponents.",
-			"thorough": "as quick plus d in {5,1,19} with p in {10,19}, receiver == y, dirty receiver, u of two words.",
+			"thorough": "as quick plus d in {5,1,19} with p in {10,19}, receiver == y, dirty receiver. (u of two words ended with a concretisation the solver could not bound - UNWIND - and is not registered.)",
 		},
 		Outside:     []string{"wider operands", "alignments where u lies below the product's last digit (d < 0): those cells (e.g. d=-19) produce thousands of paths and a few solver timeouts and are not registered", "inputs whose intermediate product x*y leaves the int32 exponent range although x*y+u is representable: known finding KF-fma-product-range (reported as KNOWN-FINDING, every other violation is still reported)"},
 		Assumptions: []string{"operands satisfy Inv (A.1)", archNote, contractNote},
